@@ -138,10 +138,10 @@ fn supervise(args: &[String]) -> i32 {
     }
   };
   // confirm: the recorded case alone must die again
-  let again = std::process::Command::new(&exe).arg("replay").arg(&crash_path).stdout(std::process::Stdio::null()).stderr(std::process::Stdio::null()).status().expect("spawn replay");
-  let died = again.signal().is_some() || again.code() == Some(crashguard::CRASH_EXIT) || again.code() == Some(1);
-  if !died {
-    eprintln!("machinery: crash recorded in {} did not reproduce (replay status {:?})", crash_path.display(), again);
+  // a recorded hang is confirmed when the replay does not come back either
+  let secs = if v["signature"].as_str().unwrap_or("").starts_with("hang") { 30 } else { 300 };
+  if !crashguard::confirm_replay(&exe, &crash_path, secs) {
+    eprintln!("machinery: crash / hang recorded in {} did not reproduce", crash_path.display());
     return 2;
   }
   let run = report::Run::new(&id, tier, "model_checking");
